@@ -23,6 +23,9 @@ _s2 = importlib.util.spec_from_file_location("c02", os.path.join(os.path.dirname
 for u in C02.UNITS:
     if u["name"] == "c02_pdst_solve_flags":
         v = copy.deepcopy(u); v["name"] = "c03_pdst_resumed_solve"; UNITS.append(v)
+for u in C01.UNITS:
+    if u["name"] == "c01_pdst_solve_flags":
+        v = copy.deepcopy(u); v["name"] = "c03_geometric_pdst_resumed_solve"; UNITS.append(v)
 # clear() of the multilevel graph planners' common base
 UNITS.append(dict(name="c03_bundlespacegraph_clear", template="C01/bundle_clear.c", mode="plain", entry="h_bundle_clear", flags=["--bounds-check", "--pointer-check"], level="proof", backend="minisat", timeout=300,
                   functions=["ompl::multilevel::BundleSpaceGraph::clear"],
